@@ -13,6 +13,13 @@ Definition obool_eqb (a b : option bool) : bool :=
   | _, _ => false
   end.
 
+Definition ostate_eqb (a b : option jstate) : bool :=
+  match a, b with
+  | None, None => true
+  | Some Done, Some Done | Some Error, Some Error | Some Running, Some Running => true
+  | _, _ => false
+  end.
+
 Fixpoint list_eqb {A} (e : A -> A -> bool) (a b : list A) : bool :=
   match a, b with
   | [], [] => true
@@ -29,8 +36,9 @@ Definition atoms_of (x : expr) : list atom := x_first x :: map snd (x_rest x).
 
 Inductive ccase :=
   (* filter text evaluated on the JobInformation of one job directory:
-     whole expression, then every atom on its own; None = raised           *)
-  | CFilter (x : expr) (j : job) (whole : option bool) (atoms : list (option bool))
+     JobInformation.state, whole expression, then every atom on its own;
+     None = raised                                                          *)
+  | CFilter (x : expr) (j : job) (st : option jstate) (whole : option bool) (atoms : list (option bool))
   (* `jobs clean` on a workspace: raised?, directories that disappeared *)
   | CClean (w : ws) (o : opts) (raised : bool) (removed : list key)
   (* `orphans [--clean] [--ignore-old]`: directories that disappeared *)
@@ -38,9 +46,10 @@ Inductive ccase :=
 
 Definition check_case (c : ccase) : bool :=
   match c with
-  | CFilter x j whole atoms =>
+  | CFilter x j st whole atoms =>
       let e := env_of state j in
-      obool_eqb whole (Some (eval x e))
+      ostate_eqb st (state j)
+      && obool_eqb whole (Some (eval x e))
       && list_eqb obool_eqb atoms (map (fun a => Some (eval_atom a e)) (atoms_of x))
   | CClean w o raised removed =>
       Bool.eqb raised (clean_raises o) && same_keys removed (clean w o)
